@@ -867,12 +867,16 @@ class EquivPos1(Macro):
         self.limit = None
 
     def eval(self, args, prevs=None):
+        if len(args) != 3:
+            raise VeriTException("equiv_pos1", "clause must have three literals")
         arg1, arg2, arg3 = args
+        if not (arg1.is_not() and arg1.arg.is_equals() and arg1.arg.arg.get_type() == BoolType):
+            raise VeriTException("equiv_pos1", "first literal must be a negated equivalence")
         eq_tm = arg1.arg
         if eq_tm.arg1 == arg2 and Not(eq_tm.arg) == arg3:
             return Thm(Or(*args))
         else:
-            raise VeriTException("equiv_pos1", "unexpected goal %s" % Or(*args))
+            raise VeriTException("equiv_pos1", "unexpected goal")
     
     def get_proof_term(self, args, prevs):
         return logic.apply_theorem("equiv_pos1", concl = Or(*args))
